@@ -28,7 +28,9 @@
 EXTENDS ClusterPipeline
 
 CONSTANTS DecOnFail,    \* BOOLEAN: a worker decrements the counter and notifies even when its send fails
-          MaxFaults     \* 0 or 1: the writer may fail
+          MaxFaults,    \* 0 or 1: the writer may fail
+          WorkerFaults  \* BOOLEAN: a worker's compression may fail (compress_cluster(..)? returns the error: an input
+                        \* that cannot be read, an encoder error); modelled from the code, not reached from outside
 
 VARIABLES wfail,        \* the writer thread has left on a write error
           dead,         \* workers that panicked
@@ -64,6 +66,12 @@ WorkerPanic(w) ==
   /\ busy' = [busy EXCEPT ![w] = Unset]
   /\ inQueue' = IF DecOnFail THEN inQueue - 1 ELSE inQueue
   /\ UNCHANGED <<Kinds, next, dispatchQ, fusionQ, txOpen, exited, filePos, segs, addr, writerDone, wfail, mainSt>>
+WorkerFail(w) ==                                       \* run() returns Err: the thread ends, counter untouched
+  /\ WorkerFaults /\ w \notin dead /\ busy[w] # Unset
+  /\ dead' = dead \cup {w}
+  /\ busy' = [busy EXCEPT ![w] = Unset]
+  /\ inQueue' = IF DecOnFail THEN inQueue - 1 ELSE inQueue
+  /\ UNCHANGED <<Kinds, next, dispatchQ, fusionQ, txOpen, exited, filePos, segs, addr, writerDone, wfail, mainSt>>
 MainPanicRaw ==
   /\ mainSt = "run" /\ wfail /\ txOpen /\ next < N /\ Kinds[next + 1] = "raw"
   /\ mainSt' = "fail" /\ txOpen' = FALSE               \* unwinding drops both senders
@@ -81,7 +89,7 @@ MainJoin ==
 
 FNext == FMainSendRaw \/ FMainSendComp \/ FMainClose \/ FWriterStep \/ FWriterExit
          \/ WriterFail \/ MainPanicRaw \/ MainPanicComp \/ MainJoin
-         \/ \E w \in Workers : FWorkerTake(w) \/ FWorkerDone(w) \/ FWorkerExit(w) \/ WorkerPanic(w)
+         \/ \E w \in Workers : FWorkerTake(w) \/ FWorkerDone(w) \/ FWorkerExit(w) \/ WorkerPanic(w) \/ WorkerFail(w)
 FSpec == FInit /\ [][FNext]_fvars
 FFairSpec == FSpec /\ WF_fvars(FMainSendRaw) /\ WF_fvars(FMainSendComp) /\ WF_fvars(FMainClose) /\ WF_fvars(FWriterStep)
              /\ WF_fvars(FWriterExit) /\ WF_fvars(MainPanicRaw) /\ WF_fvars(MainPanicComp) /\ WF_fvars(MainJoin)
@@ -93,15 +101,17 @@ FFairSpec == FSpec /\ WF_fvars(FMainSendRaw) /\ WF_fvars(FMainSendComp) /\ WF_fv
 FTypeOK == wfail \in BOOLEAN /\ dead \subseteq Workers /\ mainSt \in {"run", "closed", "ok", "fail"}
 (* success is reported only when nothing failed and every cluster is written and addressed *)
 OkMeansComplete == mainSt = "ok" => (~wfail /\ dead = {} /\ writerDone /\ Len(addr) = N /\ Written = Ids)
+(* ... and a cluster lost in a worker that failed is never papered over: the writer ends well only if nobody died *)
+WriterEndsWellOnlyIfComplete == writerDone => (dead = {} => Written = Ids)
 (* a failure of the writer is never turned into success *)
 FailureReported == (wfail /\ mainSt \in {"ok", "fail"}) => mainSt = "fail"
 (* what reached the file before the failure is what the fault-free machine writes *)
 PrefixSafe == QueueBound /\ WrittenOnce /\ NoOverlap /\ AddressPointsToOwnTail
 (* the main thread waits for room in the queue and nothing can ever make room *)
 MainWaiting == mainSt = "run" /\ txOpen /\ next < N /\ Kinds[next + 1] = "comp" /\ inQueue >= MaxQueue
-Stuck == MainWaiting /\ wfail /\ dead = Workers
+Stuck == MainWaiting /\ dead = Workers
 NeverStuck == ~Stuck
 Settles == <>(mainSt \in {"ok", "fail"})
 (* without a fault the extension is the original machine *)
-NoFaultIsOk == (MaxFaults = 0) => [](mainSt \in {"run", "closed", "ok"})
+NoFaultIsOk == (MaxFaults = 0 /\ ~WorkerFaults) => [](mainSt \in {"run", "closed", "ok"})
 =============================================================================
